@@ -7,12 +7,20 @@ from .common import Failure, f2h, h2f, parse_reply
 
 ID = "C19"
 BIN = "c19"
-PROOF_MODULES = ["Compute.Lemmas.C19Rng", "Compute.Lemmas.C19Resample", "Compute.Props.C19"]
+PROOF_MODULES = ["Compute.Lemmas.C19Rng", "Compute.Lemmas.C19Draws", "Compute.Lemmas.C19Resample", "Compute.Lemmas.C19Run",
+                 "Compute.Props.C19", "Compute.Props.C19Run"]
 REQUIRED_THEOREMS = [
-    "Cv.C19.bootstrap_spec", "Cv.C19.jackknife_spec", "Cv.C19.shuffle_perm", "Cv.C19.shuffle_two_pairs",
-    "Cv.C19.length_one", "Cv.C19.f64_range", "Cv.C19.u64LessThan_lt", "Cv.C19.i64InRange_range",
-    "Cv.C19.lemire_uniform", "Cv.C19.u64LessThan_accepts", "Cv.C19.u64LessThan_fuel_irrelevant",
-    "Cv.C19.bootstrap_none", "Cv.C19.shuffle_none", "Cv.C19.shuffle_two_none", "Cv.C19.shuffle_two_unequal",
+    # unconditional
+    "Cv.C19.jackknife_spec", "Cv.C19.length_one", "Cv.C19.shuffle_two_unequal",
+    "Cv.C19.bootstrap_eq", "Cv.C19.shuffle_eq", "Cv.C19.shuffle_two_eq",
+    "Cv.C19.bootstrap_isSome_iff", "Cv.C19.shuffle_isSome_iff", "Cv.C19.shuffle_two_isSome_iff",
+    "Cv.C19.bootstrap_returns", "Cv.C19.shuffle_returns", "Cv.C19.shuffle_two_returns",
+    "Cv.C19.bootstrap_none", "Cv.C19.shuffle_none", "Cv.C19.shuffle_two_none",
+    "Cv.C19.idxDraw_eq_lemire", "Cv.C19.lemire_uniform", "Cv.C19.u64LessThan_accepts",
+    "Cv.C19.f64_range", "Cv.C19.u64LessThan_lt", "Cv.C19.i64InRange_range", "Cv.C19.u64LessThan_fuel_irrelevant",
+    # whenever the call returns (termination of the rejection loop is not proved)
+    "Cv.C19.bootstrap_spec_partial", "Cv.C19.shuffle_perm_partial", "Cv.C19.shuffle_two_pairs_partial",
+    "Cv.C19.bootstrap_draw_law", "Cv.C19.shuffle_draw_law", "Cv.C19.bootstrap_draws",
 ]
 RULE = ("per RNG seed (100 quick / 10^4 thorough): bootstrap (length 1..2000, 1..200 resamples), jackknife, shuffle, "
         "shuffle_two on distinct / repeated / constant / special-value data (NaN, ±inf, ±0, subnormal), plus raw generator "
@@ -24,11 +32,17 @@ RULE = ("per RNG seed (100 quick / 10^4 thorough): bootstrap (length 1..2000, 1.
         "non-trivial = distinct (op, length, resamples, data kind, seed class)")
 EXHAUSTIVE = {"quick": False, "thorough": False}
 NOT_PROVED = [
-    "termination of Lemire's rejection loop for every generator state (theorems hold for every run that returns; "
-    "fuel 64 is never exhausted in the correspondence runs)",
-    "equal likelihood is proved as a counting statement over the 2^64 raw words (Lemire accepts exactly floor(2^64/m) "
-    "words per output); that wyrand's outputs are uniform/independent is not a mathematical fact and is only searched "
-    "(DKW band on bootstrap index frequencies)",
+    "termination of Lemire's rejection loop for every generator state: bootstrap_spec_partial, shuffle_perm_partial and "
+    "shuffle_two_pairs_partial hold whenever the call returns; what IS proved towards totality: each function equals a "
+    "sequence of its own index draws followed by a total post-processing (bootstrap_eq, shuffle_eq, shuffle_two_eq), returns "
+    "iff those draws return (…_isSome_iff, …_returns), and a non-returning call has a draw of its own run at which the loop "
+    "ran out of fuel (…_none); fuel 64 is never exhausted in the correspondence runs, and runs on lengths 3 and 5 are "
+    "evaluated in the kernel",
+    "equal likelihood: proved per draw as a counting statement (every drawn index is u64_less_than(n) at the run's state at "
+    "that draw, and each value has exactly floor(2^64/n) accepted raw 64-bit words); that wyrand's words are uniform and "
+    "independent is not a mathematical fact and is only searched (DKW band and boundary-cell bounds on bootstrap draws)",
+    "only jackknife is regenerated from the Rust source; bootstrap, shuffle, shuffle_two, DiscreteUniform::sample and the alea "
+    "functions are hand-written models tied by bit-exact differential execution (values and generator state)",
 ]
 TRUSTED = [
     "alea 0.2.2 as vendored in ~/.cargo/registry (the model follows its source; tie is bit-exact including the final state)",
